@@ -674,7 +674,7 @@ def runtime_exploration(res, tier, seed):
         run_note["stages"] = stages
         run_note["fixture_files"] = len(files)
         res.count(sum(int(v.get("calls", 0)) for v in stages.get("collections", {}).values()))
-        res.count(int(stages.get("projects", {}).get("runs", 0)) + int(stages.get("cold", {}).get("runs", 0)) + int(stages.get("shared", {}).get("reads", 0)))
+        res.count(int(stages.get("projects", {}).get("runs", 0)) + int(stages.get("cold", {}).get("runs", 0)) + int(stages.get("shared", {}).get("reads", 0)) + int(stages.get("samefile", {}).get("runs", 0)))
         for v in rep.get("violations", []):
             if v.get("class") == "example-only" and v.get("stage") == "projects":
                 n_known_diffs += 1
